@@ -70,7 +70,13 @@ func Run(x Vector, beta Scalar, nu Vector, t1, t2, t3 Scalar) {
     sigma.Add(sigma, t)
   }
   if sigma.GetFloat64() == 0.0 {
-    beta.SetFloat64(0.0)
+    // x = (x0, 0, ..., 0): no reflection is required if x0 >= 0, otherwise
+    // reflect at e1 so that P x = ||x|| e1 also holds for x0 < 0
+    if x.At(0).GetFloat64() >= 0.0 {
+      beta.SetFloat64(0.0)
+    } else {
+      beta.SetFloat64(2.0)
+    }
   } else {
     nu0 := nu.At(0)
     mu.Mul(x.At(0), x.At(0))
